@@ -1,4 +1,4 @@
-(* C18: the switches that select which tree the model describes.
+(* C18: the switches that select which tree the model describes (four).
 
    [code_fixed] -- DESIGN section 6 item 4.  false: db/database.go getResyncedDocument computes [changed]
    only in the winning-leaf branch, so a document whose only difference is the channel set of a NON-winning
@@ -17,3 +17,9 @@
 Definition code_fixed : bool := true.
 Definition reject_roles_fixed : bool := true.
 Definition regen_inval_fixed : bool := true.
+
+(* [always_inval_fixed] -- found while deepening C18 (run model).  false: invalidatePrincipals invalidates the principals
+   only when docs_changed of the CURRENT run id is positive, so a run that completes after an earlier, interrupted run
+   (reset / changed collection set / crash that lost the counter) rewrote the documents never invalidates.  true: the
+   repair (/repo commit bc044df) invalidates after every completed run. *)
+Definition always_inval_fixed : bool := true.
